@@ -192,6 +192,17 @@ class ExprGen:
         self.vars.append((name, ["user", t]))
         try:
             body = self.bool_expr(d - 1)
+            if k == "exists" and r.random() < 0.3:
+                # `exists v. (... and v == value)`: the shape the simplifier eliminates v from;
+                # the value may be of a supertype of v's type and may itself mention v
+                sup = [x for x in self.user_types() if subtype_of(self.tmap, t, x) and self.can_obj(x)]
+                try:
+                    val = self.obj_expr(r.choice(sup), 1)
+                    v = ["v", name, ["user", t]]
+                    eq = ["eq", v, val] if r.random() < 0.5 else ["eq", val, v]
+                    body = ["and", body, eq] if r.random() < 0.7 else ["and", eq, body]
+                except (ValueError, IndexError):
+                    pass
         finally:
             self.vars.pop()
         return [k, [[name, ["user", t]]], body]
